@@ -751,6 +751,7 @@ impl Worker {
 
         let mut file = self.active_file.take();
         let mut file_set = ActiveFileSet::empty(&self.metrics, &self.dir);
+        let file_set_is_read = file.is_none();
 
         if file.is_none() {
             if let Err(err) = self.fs.create_dir_all(Path::new(&self.dir)) {
@@ -817,6 +818,11 @@ impl Worker {
         let mut file = if let Some(file) = file {
             file
         } else {
+            // If we had an active file then we haven't looked at the file set yet
+            if !file_set_is_read {
+                let _ = file_set.read(&self.fs, &self.file_prefix, &self.file_ext);
+            }
+
             // Leave room for the file we're about to create
             file_set.apply_retention(&self.fs, self.max_files.saturating_sub(1));
 
